@@ -32,10 +32,11 @@ for picklable `x`).  The request id is the byte string the f-string produces.
 * `reader.readexactly(n)` → `take n` / `drop n`, `IncompleteReadError` when fewer bytes arrive;
 * `decode(data, encoder)` → the encoder name must be one of the three known ones.
 
-Assumed (trusted base, DESIGN §4): `StreamReader.readuntil/readexactly` return the same bytes
-whatever the chunk boundaries of the incoming data are, i.e. reading is a function of the
-concatenation of what was fed; the transport delivers the written bytes in order.  The tie feeds a
-real `StreamReader` with many chunkings of each stream to check exactly this.
+Assumed (trusted base, DESIGN §4): a `StreamReader` is a buffer — `readuntil/readexactly` return as
+soon as the buffer holds what they ask for and wait otherwise (`Reader` below; with that,
+`Proofs/FrameChunks.lean` proves that the chunk boundaries of the incoming data do not matter); the
+transport delivers the written bytes in order.  The tie feeds a real `StreamReader` with many
+chunkings of each stream and compares with `decodeStream` on the concatenation.
 -/
 namespace Frame
 
@@ -169,6 +170,50 @@ def decodeFuel (lim : Nat) : Nat → Bytes → List Rec × End
 /-- all records a reader obtains from the byte stream `bs` (every record consumes at least its
     newline, so `bs.length + 1` rounds suffice) -/
 def decodeStream (lim : Nat) (bs : Bytes) : List Rec × End := decodeFuel lim (bs.length + 1) bs
+
+/-! ### the same loop when the bytes arrive in chunks
+
+A `StreamReader` is a buffer: `feed_data(chunk)` appends, `readuntil`/`readexactly` return as soon as
+the buffer holds what they ask for and wait otherwise.  `Reader.feed` appends a chunk and lets the
+loop `while True: read_record(reader)` run until a read has to wait (or raises); `Reader.eof` is
+`feed_eof()`.  `Proofs/FrameChunks.lean` proves that the records and the ending are those of
+`decodeStream` on the concatenation, for every chunking of every byte stream. -/
+
+structure Reader where
+  out : List Rec          -- records the loop has returned so far
+  buf : Bytes             -- bytes buffered, not yet consumed
+  ended : Option End      -- the loop has ended with this error
+  deriving Repr, DecidableEq
+
+/-- run the loop on the buffered bytes until a read has to wait: records, what stays buffered, error -/
+def drainFuel (lim : Nat) : Nat → Bytes → List Rec × Bytes × Option End
+  | 0, bs => ([], bs, none)
+  | f + 1, bs =>
+    match readRecord lim bs with
+    | .ok r rest => let p := drainFuel lim f rest; (r :: p.1, p.2.1, p.2.2)
+    | .eof => ([], bs, none)
+    | .incomplete => ([], bs, none)
+    | .overrun => ([], bs, some .overrun)
+    | .bad => ([], bs, some .bad)
+
+def Reader.init : Reader := { out := [], buf := [], ended := none }
+
+def Reader.feed (lim : Nat) (rd : Reader) (chunk : Bytes) : Reader :=
+  match rd.ended with
+  | some _ => { rd with buf := rd.buf ++ chunk }
+  | none =>
+    let p := drainFuel lim ((rd.buf ++ chunk).length + 1) (rd.buf ++ chunk)
+    { out := rd.out ++ p.1, buf := p.2.1, ended := p.2.2 }
+
+/-- `feed_eof()`: a pending read ends with `IncompleteReadError` -/
+def Reader.eof (rd : Reader) : List Rec × End :=
+  match rd.ended with
+  | some e => (rd.out, e)
+  | none => (rd.out, if rd.buf.isEmpty then .eof else .incomplete)
+
+/-- the records and the ending a reader obtains when the stream arrives as the given chunks -/
+def readChunks (lim : Nat) (chunks : List Bytes) : List Rec × End :=
+  (chunks.foldl (Reader.feed lim) Reader.init).eof
 
 /-- the reader's default limit -/
 def defaultLimit : Nat := 65536
